@@ -1133,6 +1133,23 @@ func features(src string) []string {
 			walk(fd.Body.List, 0)
 		}
 	}
+	if f["continue"] || f["break"] {
+		// loop control programs: only what concerns the control transfer (loop form and variable
+		// residency are dropped so that one defect of break / continue gives one signature)
+		g := map[string]bool{}
+		for _, k := range []string{"break", "continue-in-loop-with-post", "for-cond-only", "for-infinite", "incdec-nested"} {
+			if f[k] {
+				g[k] = true
+			}
+		}
+		if f["continue"] && !f["continue-in-loop-with-post"] {
+			g["continue-in-loop-without-post"] = true
+		}
+		if f["nested"] && (f["for-reg"] || f["for-mem"]) && strings.Count(src, "\tfor ") >= 2 {
+			g["nested-loops"] = true
+		}
+		return keys(g)
+	}
 	return keys(f)
 }
 
